@@ -54,7 +54,11 @@ def tree(rng, depth, size=32):
                 a = ['O', '+', [a, tree(rng, depth - 2)]]
             nc = rng.choice(['<<', '>>', 'a>>', '<<<', '>>>', '==', '-'])
             args += [['O', nc, [a, b]], ['O', nc, [b, a]]]
-        elif y < 0.24 and op in ('|', '&', '^', '+'):
+        elif y < 0.30:
+            # a term and its negation as siblings (sort keys must tell them apart)
+            a = rng.choice(REG_RECIPES + FRESH) if rng.random() < 0.6 else tree(rng, depth - 2)
+            args += rng.choice([[a, ['O', '-', [a]]], [['O', '-', [a]], a]])
+        elif y < 0.42 and op in ('|', '&', '^', '+'):
             # memory operands that differ only by their segment, plus a duplicate
             addr = rng.choice(REG_RECIPES) if rng.random() < 0.6 else ['O', '+', [rng.choice(REG_RECIPES), r_int(rng.choice([4, 8]))]]
             segs = [['D', sname, 16, False, True] for sname in rng.sample(['ds', 'es', 'ss', 'fs'], 2)]
